@@ -375,7 +375,7 @@ func genTreePatterns(t *rapid.T, files []TreeFile) (string, string) {
 	if rapid.IntRange(0, 11).Draw(t, "itemNoMatch") == 0 {
 		item = rapid.SampledFrom([]string{"nomatch*", "s9", "grp/zz*", "grp/*/*/*"}).Draw(t, "itemNoMatchPattern")
 	}
-	src := rapid.SampledFrom([]string{"*.wsp", "*.wsp", "*.wsp", "*.wsp", "f?.wsp", "f[12].wsp", "f1.wsp", "f[2-6].wsp"}).Draw(t, "srcPattern")
+	src := rapid.SampledFrom([]string{"*.wsp", "*.wsp", "*.wsp", "*.wsp", "f?.wsp", "f[12].wsp", "f1.wsp", "f[2-6].wsp", "f*1.wsp", "f*[2-6].wsp"}).Draw(t, "srcPattern")
 	if rapid.IntRange(0, 11).Draw(t, "srcNoMatch") == 0 {
 		src = "zzz*.wsp"
 	}
